@@ -23,7 +23,7 @@ ASSUMPTIONS = ["a scenario whose written citations are not all extracted at thei
                "opinion window for 'pin cite within the opinion' is read from eyecite.resolve.MAX_OPINION_PAGE_COUNT"]
 FLOORS = {"quick": {"scenarios_decided": 3000, "ref:short": 1500, "ref:supra": 1500, "ref:id": 1500,
                     "colliding_scenarios": 500, "must_stay_unresolved_ids": 500, "exhaustive_small": 2588, "bare_short_forms": 300, "id_range_pins": 300, "accented_names": 300,
-                    "cases_with_variant_spellings": 800, "db_string_scenarios": 1300, "long_prose_before_citation": 300, "nominative_reporter_party_names": 200},
+                    "cases_with_variant_spellings": 800, "db_string_scenarios": 1300, "supra_before_punctuation_cluster": 150, "party_names_not_capitalised": 100, "long_prose_before_citation": 300, "nominative_reporter_party_names": 200},
           "thorough": {"scenarios_decided": 200000, "ref:short": 100000, "ref:supra": 100000, "ref:id": 100000,
                        "colliding_scenarios": 50000, "must_stay_unresolved_ids": 50000,
                        "exhaustive_small": 20956}}
@@ -125,6 +125,10 @@ def make_cases(rng, k, collide=None):
                 if not any(w.lower() in u.lower() or u.lower() in w.lower() for u in used):
                     return w
         P = fresh(); used.append(P)
+        if rng.random() < 0.06:
+            # company-style names that do not begin with a capital letter
+            P = rng.choice([x for x in ("eBay", "iRobot", "amazon.com", "e.Digital", "deVries", "iPayment") if x not in used] or [P])
+            used[-1] = P
         D = fresh()
         if rng.random() < 0.1 and not any(n in used for n in NOMINATIVE_NAMES):
             # a party whose name is also the name of a nominative reporter ('Shapiro v. Thompson, 394 U.S. 618')
@@ -234,6 +238,10 @@ class Scenario:
         s = f"{r.choice(LEAD)}{name}, "
         st = len(self.text) + len(s)
         s += "supra" + r.choice([f", at {c['page'] + r.randint(0, 30)}", "", f" at {c['page'] + 1}"])
+        if s.endswith("supra") and r.random() < 0.3:
+            # the reference closes a parenthesis or a quotation: two or more punctuation marks right after it
+            s += r.choice([".)", ").", ".\"", ",\u201d", ".\u201d)", "));"])
+            self.supra_clusters = getattr(self, "supra_clusters", 0) + 1
         self.text += s
         self.refs.append((st, "supra", i, i))
         self.last = i
@@ -389,6 +397,8 @@ def judge(sc, rec, case):
     rec.count("cases_with_variant_spellings", sum(1 for c in cases if c["cited"] and len(c["spell"]) > 1))
     rec.count("nominative_reporter_party_names", sum(1 for c in cases if c["cited"] and c["D"] in NOMINATIVE_NAMES))
     rec.count("long_prose_before_citation", getattr(sc, "long_fill", 0))
+    rec.count("supra_before_punctuation_cluster", getattr(sc, "supra_clusters", 0))
+    rec.count("party_names_not_capitalised", sum(1 for c in cases if c["cited"] and not c["P"][:1].isupper()))
     rec.count("accented_names", sum(1 for c in cases for n in (c["P"], c["D"]) if not n.isascii()))
     if len({(canon(c["rep"]), c["vol"]) for c in cases if c["cited"]}) < sum(1 for c in cases if c["cited"]):
         rec.count("colliding_scenarios")
